@@ -7,7 +7,11 @@ mod util;
 mod bringup;
 mod c03;
 mod c04;
+mod c09;
 mod c10;
+mod c11;
+mod corpus;
+mod feed;
 mod c14;
 mod dec;
 
@@ -61,7 +65,9 @@ fn main() {
     let r = std::panic::catch_unwind(|| match id.as_str() {
         "C03" => c03::main(&args),
         "C04" => c04::main(&args),
+        "C09" => c09::main(&args),
         "C10" => c10::main(&args),
+        "C11" => c11::main(&args),
         "C14" => c14::main(&args),
         "bringup" => bringup::main(&args),
         _ => {
